@@ -37,7 +37,7 @@ FLOORS = {
               'kind:Choice': 50, 'kind:LA': 50, 'kind:NLA': 50, 'kind:Named': 50, 'kind:NamedList': 50,
               'kind:Over': 50, 'kind:Const': 50, 'kind:Void': 50, 'kind:EOF': 50, 'kind:Dot': 50,
               'kind:SkipTo': 50, 'kind:Empty': 50, 'kind:Call': 50, 'kind:Tok': 50, 'kind:Pat': 50,
-              'kind:Group': 50, 'kind:Seq': 50, 'textroute_cases': 100, 'sugar:include': 100, 'sugar:based_rule': 100, 'sugar:override_rule': 100, 'default_start_cases': 800},
+              'kind:Group': 50, 'kind:Seq': 50, 'kind:AssocJoin': 20, 'textroute_cases': 100, 'sugar:include': 100, 'sugar:based_rule': 100, 'sugar:override_rule': 100, 'default_start_cases': 800},
     'thorough': {'accepted_unflagged': 400000, 'textroute_cases': 1000},
 }
 
@@ -65,6 +65,7 @@ def plan(tier, seed):
 def feature_set(rng):
     F = dict(G.FEATURES)
     F['cut'] = rng.random() < 0.3
+    F['assoc'] = rng.random() < 0.35   # the documented s<{e}+ / s>{e}+ joins
     for k in ('names', 'over', 'la', 'join', 'skipto', 'const', 'skipgroup'):
         if rng.random() < 0.15:
             F[k] = False
